@@ -117,10 +117,10 @@ def run(ctx):
     g = ctx.body('file::TableFile::grow')
     if g:
         rep = g.call_sites('std::mem::replace')
-        fl = g.call_sites(*MMAP_FLUSH)
+        fl = lib.msync_tail_sites(g, 0)
         ctx.ob('4a remap-site', 'anchor', g.path, 'TableFile::grow replaces the mapping with mem::replace', bool(rep), '')
         if rep:
-            lib.must_pass(ctx, '4b old-map-flushed', g, fl, 'after the mapping was replaced, every success path flushes the old mapping (MmapMut::flush) before returning Ok',
+            lib.must_pass(ctx, '4b old-map-flushed', g, fl, 'after the mapping was replaced, every success path msyncs the whole old mapping (flush, or flush_range(0, len)) before returning Ok',
                           sources=rep)
     # ---------------------------------------------------------------- 5. truncation / unlink primitives confined
     lib.callers_confined(ctx, '5a set_len-callers', F, [SET_LEN],
@@ -159,28 +159,18 @@ def run(ctx):
         b = ctx.body(fn)
         if not b:
             continue
-        sites = b.call_sites(*MMAP_FLUSH)
-        ok = bool(sites)
-        det = ''
-        for s in sites:
-            t = b.term(s)
-            if core.call_matches(t, ['memmap2::MmapMut::flush_range']):
-                off = t['a'][1]
-                ms = meta.get(mc)
-                if off.get('i') is None:
-                    # offset via the named constant is const-evaluated in MIR; anything else is undecidable here
-                    ok = False; det = 'flush_range offset is not a compile-time constant: %s' % core.op_str(off)
-                elif ms is None or off['i'] > ms:
-                    ok = False; det = 'flush_range starts at %s which is beyond META_SIZE=%s: data bytes before it are never msynced' % (off['i'], ms)
-                ln = core.backward_slice(b, [core.op_place(t['a'][2])] if core.op_place(t['a'][2]) else [])
-                if not any('len' in c for c in ln.calls):
-                    ok = False; det = 'flush_range length is not derived from the mapping length'
-        ctx.ob('6a msync-range %s' % fn, 'K8-const', fn, 'the index/ref-count flush msyncs from an offset <= META_SIZE for a length derived from map.len()', ok, det)
+        ms = meta.get(mc)
+        sites = lib.msync_tail_sites(b, ms if ms is not None else 0)
+        ctx.ob('6a msync-range %s' % fn, 'K8-const', fn, 'the index/ref-count flush msyncs from an offset <= META_SIZE up to the end of the mapping (offset + length == map.len())',
+               bool(sites) and ms is not None, 'no msync that starts at or below META_SIZE=%s and provably reaches the end of the mapping' % ms)
         lib.cond_guarded(ctx, '6b msync-only-skipped-if-unmapped %s' % fn, b, sites[0],
                          'the msync is skipped only when no mapping exists', fields=['.IndexTable.map'] if 'index' in fn else ['.RefCountTable.map']) if sites else None
+    part = lib.msync_partial_sites(F)
+    ctx.ob('6e no-partial-msync', 'K8-const', '-', 'no msync in the crate covers a range that stops short of the end of its mapping (bytes appended by in-place growth would never be written back)',
+           not part, '; '.join('%s at %s' % x for x in part))
     tf = ctx.body('file::TableFile::flush')
     if tf:
-        sites = tf.call_sites('memmap2::MmapMut::flush')
-        ctx.ob('6c tablefile-msync', 'K1-must-pass', tf.path, 'TableFile::flush msyncs the whole mapping', bool(sites), 'no MmapMut::flush call')
+        sites = lib.msync_tail_sites(tf, 0)
+        ctx.ob('6c tablefile-msync', 'K1-must-pass', tf.path, 'TableFile::flush msyncs the whole mapping (flush, or flush_range(0, map.len()))', bool(sites), 'no msync of the whole mapping')
         if sites:
             lib.cond_guarded(ctx, '6d tablefile-msync-only-skipped-if-unmapped', tf, sites[0], 'msync skipped only when the file is not mapped', fields=['.TableFile.map'])
